@@ -14,7 +14,9 @@ import (
 	"math/big"
 	"net"
 	"os"
+	"strconv"
 	"strings"
+	"sync"
 
 	"bfeverif/harness/internal/vh"
 	"github.com/bfenetworks/bfe/bfe_util/ipdict"
@@ -52,6 +54,7 @@ func bases(r *vh.Rand) []*big.Int {
 		mk("2001:db8::"), mk("::fffe:ffff:ffc0"), // just below the v4-mapped block
 		new(big.Int).Sub(max128, big.NewInt(40)),
 		big.NewInt(1 << 20),
+		new(big.Int).Lsh(big.NewInt(1), 48), // ::1:0:0:0, just above the v4-mapped block
 	}
 	k := r.Range(1, 3)
 	var out []*big.Int
@@ -82,6 +85,8 @@ func genStep(r *vh.Rand, small bool) (string, string, []string) {
 	}
 	if small {
 		n = r.Range(0, 5)
+	} else if vh.Thorough && r.Chance(1, 150) {
+		n = r.Range(200, 700) // huge table (thorough tier only)
 	}
 	spread := []int{8, 24, 64, 64}[r.Intn(4)]
 	var rs []rng
@@ -106,6 +111,13 @@ func genStep(r *vh.Rand, small bool) (string, string, []string) {
 			case 3: // ends exactly at / just before the other's start
 				e = clamp(new(big.Int).Sub(o.s, big.NewInt(int64(r.Intn(2)))))
 				s = clamp(new(big.Int).Sub(e, big.NewInt(int64(r.Intn(5)))))
+			}
+		case x == 19 && r.Chance(1, 2): // IPv6 range that swallows the whole IPv4-mapped block (or ends exactly at ff..ff)
+			mk := func(t string) *big.Int { return new(big.Int).SetBytes(net.ParseIP(t).To16()) }
+			s = clamp(new(big.Int).Add(mk("::fffe:ffff:ffc0"), big.NewInt(int64(r.Intn(64)))))
+			e = new(big.Int).Add(new(big.Int).Lsh(big.NewInt(1), 48), big.NewInt(int64(r.Intn(8))))
+			if r.Chance(1, 4) {
+				e = new(big.Int).Set(max128)
 			}
 		case x < 5: // single-address range
 			s = pt()
@@ -194,7 +206,11 @@ func joinP(ptok []string) string {
 func gen(r *vh.Rand) string {
 	if !r.Chance(1, 4) {
 		rs, ss, pt := genStep(r, false)
-		return rs + ";" + ss + ";" + joinP(pt)
+		pre := ""
+		if r.Chance(1, 8) {
+			pre = "x2=1;" // Sort() called twice
+		}
+		return pre + rs + ";" + ss + ";" + joinP(pt)
 	}
 	vers := []string{"-", "31", "32", "312e31"}
 	var steps []string
@@ -211,13 +227,35 @@ func gen(r *vh.Rand) string {
 			probes = probes[:60]
 		}
 		prev = pt
-		switch x := r.Intn(20); {
+		switch x := r.Intn(24); {
 		case x < 2:
 			steps = append(steps, "k=n;r=.;s=.;"+joinP(probes))
-		case x < 9:
-			steps = append(steps, "k=f;v="+ver+";"+rs+";"+ss+";"+joinP(probes))
+		case x < 4 || (i == 0 && x < 7):
+			steps = append(steps, "k=q;r=.;s=.;"+joinP(probes)) // probes only (first step: before any Update)
+		case x < 11:
+			d := ""
+			if r.Chance(1, 4) {
+				d = []string{"ds=-1;", "dp=-1;", "ds=1;dp=2;", "ds=-100;", "dp=-100;"}[r.Intn(5)]
+			}
+			if r.Chance(1, 6) {
+				cnt := func(x string) int {
+					if strings.HasSuffix(x, "=.") {
+						return 0
+					}
+					return strings.Count(x, ",") + 1
+				}
+				total := cnt(rs) + cnt(ss)
+				d += "ml=" + itoa([]int{0, total, total + 1, max0(total - 1)}[r.Intn(4)]) + ";"
+			}
+			steps = append(steps, "k=f;v="+ver+";"+d+rs+";"+ss+";"+joinP(probes))
+		case x < 14:
+			steps = append(steps, "k=w;v="+ver+";"+rs+";"+ss+";"+joinP(probes)) // swap while searching
 		default:
-			steps = append(steps, "v="+ver+";"+rs+";"+ss+";"+joinP(probes))
+			x2 := ""
+			if r.Chance(1, 6) {
+				x2 = "x2=1;"
+			}
+			steps = append(steps, "v="+ver+";"+x2+rs+";"+ss+";"+joinP(probes))
 		}
 	}
 	return strings.Join(steps, "|")
@@ -250,17 +288,28 @@ func list(s string) []string {
 }
 
 // exec runs a history: steps separated by '|', all on ONE IPTable.
-//   step = [k=<u|n|f>;][v=<hex version>;]r=..;s=..;p=..
-//   k=u (default) build IPItems by InsertPair/InsertSingle + Sort(), set Version, IPTable.Update(items)
+//   step = [k=<kind>;][v=<hex version>;][x2=1;][ds=<int>;][dp=<int>;][ml=<SetMaxLine>;]r=..;s=..;p=..
+//   k=u (default) build IPItems by InsertPair/InsertSingle + Sort() (x2=1: Sort() called twice), set Version, IPTable.Update(items)
 //   k=n           IPTable.Update(nil)
-//   k=f           write the step as an IP dict file (meta comment line iff the version is not empty), load it the way
-//                 mod_block does: txt_load.CheckAndLoad(table.Version()), and Update only when it returned items
-// step result = e=..;f=..;s1=..;m=..;s2=..;t=..;ld=<ok|nil|skip|err>;ver=<hex of table.Version()>;q=<Search answers>
+//   k=q           no update at all: only Version() and the probes (first step: Search on a table that never saw an Update)
+//   k=f           write the step as an IP dict file (meta comment line iff the version is not empty, its counts off by
+//                 ds/dp; separators, blank and comment lines varied), load it the way mod_block does:
+//                 txt_load.CheckAndLoad(table.Version()), and Update only when it returned items without error
+//   k=w           build items like k=u, then SWAP WHILE SEARCHING: a goroutine alternates Update(new)/Update(old) and ends
+//                 with Update(new) while this goroutine searches every probe repeatedly; w=<per probe: 0 all false,
+//                 1 all true, m mixed>.  The driver accepts any answer that the old or the new items give.
+// step result = e=..;f=..;s1=..;m=..;s2=..;t=..;n=<items.Length()|->;ld=<ok|nil|keep|skip|err>;ver=<hex of table.Version()>;[w=..;]q=<Search answers>
+// After InsertSingle and after Search the caller's slice is overwritten (nothing may keep a reference to it).
+type tstate struct {
+	table *ipdict.IPTable
+	cur   *ipdict.IPItems
+}
+
 func exec(op string) string {
-	table := ipdict.NewIPTable()
+	ts := &tstate{table: ipdict.NewIPTable()}
 	var out []string
 	for _, st := range strings.Split(op, "|") {
-		r := step(table, st)
+		r := step(ts, st)
 		out = append(out, r)
 		if !strings.HasPrefix(r, "e=") {
 			return r
@@ -284,18 +333,49 @@ func ipText(tok string) string {
 	return ip.String()
 }
 
-func step(table *ipdict.IPTable, op string) string {
+func scribble(ip net.IP) {
+	for i := range ip {
+		ip[i] ^= 0x5a
+	}
+}
+
+func search1(t *ipdict.IPTable, tok string) bool {
+	ip := parseIP(tok)
+	r := t.Search(ip)
+	scribble(ip)
+	return r
+}
+
+func step(ts *tstate, op string) string {
+	table := ts.table
 	kind, ver := "u", ""
+	x2 := false
+	ds, dp, ml := 0, 0, -1
 	secs := strings.Split(op, ";")
-	for len(secs) > 0 && (strings.HasPrefix(secs[0], "k=") || strings.HasPrefix(secs[0], "v=")) {
-		if strings.HasPrefix(secs[0], "k=") {
-			kind = secs[0][2:]
-		} else {
-			vb, ok := vh.UnHex(secs[0][2:])
+	for len(secs) > 0 && !strings.HasPrefix(secs[0], "r=") {
+		kv := strings.SplitN(secs[0], "=", 2)
+		if len(kv) != 2 {
+			return "bad-op"
+		}
+		switch kv[0] {
+		case "k":
+			kind = kv[1]
+		case "v":
+			vb, ok := vh.UnHex(kv[1])
 			if !ok {
 				return "bad-op"
 			}
 			ver = string(vb)
+		case "x2":
+			x2 = kv[1] == "1"
+		case "ds":
+			ds, _ = strconv.Atoi(kv[1])
+		case "dp":
+			dp, _ = strconv.Atoi(kv[1])
+		case "ml":
+			ml, _ = strconv.Atoi(kv[1])
+		default:
+			return "bad-op"
 		}
 		secs = secs[1:]
 	}
@@ -312,12 +392,17 @@ func step(table *ipdict.IPTable, op string) string {
 	var s1, s2, tab []ipdict.VerifPair
 	m := 0
 	ld := "ok"
+	length := "-"
+	wres := ""
 	switch kind {
 	case "n":
 		table.Update(nil)
+		ts.cur = nil
 		ld = "nil"
-	case "u", "f":
-		a, err1 := ipdict.NewIPItems(len(st)+len(rt), len(rt)) // the checked object (k=u): real Sort()
+	case "q":
+		ld = "keep"
+	case "u", "f", "w":
+		a, err1 := ipdict.NewIPItems(len(st)+len(rt), len(rt)) // the checked object (k=u,w): real Sort()
 		b, err2 := ipdict.NewIPItems(len(st)+len(rt), len(rt)) // the stepped twin: learns sort.Sort's permutations
 		if err1 != nil || err2 != nil {
 			return "new:err"
@@ -330,7 +415,7 @@ func step(table *ipdict.IPTable, op string) string {
 				return "bad-op"
 			}
 			ia, ib := parseIP(p[0]), parseIP(p[1])
-			lines = append(lines, ipText(p[0])+" "+ipText(p[1]))
+			lines = append(lines, ipText(p[0])+sepFor(len(lines), t)+ipText(p[1]))
 			if kind == "f" && ia.To16() != nil && ib.To16() != nil && ia.To16().Equal(ib.To16()) {
 				// CheckAndLoad inserts a line with equal start and end as a single address
 				b.InsertSingle(ia)
@@ -340,7 +425,7 @@ func step(table *ipdict.IPTable, op string) string {
 			}
 			nPair++
 			erA := a.InsertPair(ia, ib)
-			erB := b.InsertPair(ia, ib)
+			erB := b.InsertPair(parseIP(p[0]), parseIP(p[1]))
 			if (erA == nil) != (erB == nil) {
 				return "hook-diverged"
 			}
@@ -353,7 +438,9 @@ func step(table *ipdict.IPTable, op string) string {
 		for _, t := range st {
 			lines = append(lines, ipText(t))
 			nSingle++
-			erA := a.InsertSingle(parseIP(t))
+			ip := parseIP(t)
+			erA := a.InsertSingle(ip)
+			scribble(ip)
 			b.InsertSingle(parseIP(t))
 			if erA != nil {
 				f.WriteByte('1')
@@ -361,29 +448,88 @@ func step(table *ipdict.IPTable, op string) string {
 				f.WriteByte('0')
 			}
 		}
-		if kind == "u" {
+		switch kind {
+		case "u", "w":
 			s1, m, s2 = b.VerifSortSteps()
 			a.Sort()
+			if x2 {
+				a.Sort()
+			}
 			a.Version = ver
 			tab = a.VerifItems()
-			table.Update(a)
-		} else {
+			length = itoa(a.Length())
+			if kind == "u" {
+				table.Update(a)
+			} else {
+				old := ts.cur
+				var wg sync.WaitGroup
+				wg.Add(1)
+				go func() {
+					defer wg.Done()
+					for i := 0; i < 300; i++ {
+						table.Update(a)
+						table.Update(old)
+					}
+					table.Update(a)
+				}()
+				var wb strings.Builder
+				for _, t := range pt {
+					tr, fa := 0, 0
+					for i := 0; i < 30; i++ {
+						if search1(table, t) {
+							tr++
+						} else {
+							fa++
+						}
+					}
+					switch {
+					case fa == 0:
+						wb.WriteByte('1')
+					case tr == 0:
+						wb.WriteByte('0')
+					default:
+						wb.WriteByte('m')
+					}
+				}
+				wg.Wait()
+				wres = ";w=" + dot(wb.String())
+			}
+			ts.cur = a
+		default:
 			fh, err := os.CreateTemp("", "verif-c19-*.dict")
 			if err != nil {
 				return "tmp:err"
 			}
 			if ver != "" {
-				fmt.Fprintf(fh, "#{\"version\":\"%s\",\"singleIPNum\":%d,\"pairIPNum\":%d}\n", ver, nSingle, nPair)
+				fmt.Fprintf(fh, "#{\"version\":\"%s\",\"singleIPNum\":%d,\"pairIPNum\":%d}\n", ver, nSingle+ds, nPair+dp)
 			}
-			fh.WriteString(strings.Join(lines, "\n") + "\n")
+			for i, l := range lines {
+				switch (i + len(l)) % 7 {
+				case 0:
+					fh.WriteString("\n")
+				case 1:
+					fh.WriteString("# " + l + "\n   \n")
+				case 2:
+					l = " \t" + l + "  "
+				case 3:
+					l = l + "\t"
+				}
+				fh.WriteString(l + "\n")
+			}
 			fh.Close()
-			loaded, err := txt_load.NewTxtFileLoader(fh.Name()).CheckAndLoad(table.Version())
+			loader := txt_load.NewTxtFileLoader(fh.Name())
+			if ml >= 0 {
+				loader.SetMaxLine(ml)
+			}
+			loaded, err := loader.CheckAndLoad(table.Version())
 			os.Remove(fh.Name())
 			switch {
 			case err == nil && loaded != nil:
 				s1, m, s2 = b.VerifSortSteps()
 				tab = loaded.VerifItems()
+				length = itoa(loaded.Length())
 				table.Update(loaded)
+				ts.cur = loaded
 			case err == txt_load.ErrNoNeedUpdate:
 				ld = "skip"
 			default:
@@ -398,14 +544,26 @@ func step(table *ipdict.IPTable, op string) string {
 		return "bad-op"
 	}
 	for _, t := range pt {
-		if table.Search(parseIP(t)) {
+		if search1(table, t) {
 			q.WriteByte('1')
 		} else {
 			q.WriteByte('0')
 		}
 	}
 	return "e=" + dot(e.String()) + ";f=" + dot(f.String()) + ";s1=" + items(s1) + ";m=" + itoa(m) +
-		";s2=" + items(s2) + ";t=" + items(tab) + ";ld=" + ld + ";ver=" + vh.Hex([]byte(table.Version())) + ";q=" + dot(q.String())
+		";s2=" + items(s2) + ";t=" + items(tab) + ";n=" + length + ";ld=" + ld + ";ver=" + vh.Hex([]byte(table.Version())) + wres + ";q=" + dot(q.String())
+}
+
+// sepFor picks the separator between start and end of a file line (space, spaces, tab, mixed)
+func sepFor(i int, t string) string {
+	return []string{" ", "  ", "\t", " \t ", "\t\t"}[(i+len(t))%5]
+}
+
+func max0(n int) int {
+	if n < 0 {
+		return 0
+	}
+	return n
 }
 
 func itoa(n int) string {
